@@ -121,6 +121,35 @@ class MyBase(BaseException):
     pass
 
 
+# user subclasses of glom's own error classes (raised by user code): the caller's `except MyX` must keep working
+class MyPathAccessError(PathAccessError):
+    pass
+
+
+class MyMatchError(MatchError):
+    pass
+
+
+class MyTypeMatchError(TypeMatchError):
+    pass
+
+
+class MyCheckError(CheckError):
+    pass
+
+
+class MyCoalesceError(CoalesceError):
+    pass
+
+
+class MyUnregisteredTarget(UnregisteredTarget):
+    pass
+
+
+class MyFoldError(FoldError):
+    pass
+
+
 class Falsy(Exception):
     """an exception object that is falsy (a collection-like error with no entries)"""
     def __len__(self):
@@ -218,6 +247,13 @@ CATALOGUE = {
     'SystemExit': lambda: SystemExit(3),
     'GeneratorExit': lambda: GeneratorExit(),
     'MyBase': lambda: MyBase('b'),
+    'MyPathAccessError': lambda: MyPathAccessError(KeyError('x'), Path('a'), 0),
+    'MyMatchError': lambda: MyMatchError('fmt {0}', 1),
+    'MyTypeMatchError': lambda: MyTypeMatchError(int, str),
+    'MyCheckError': lambda: MyCheckError(['m'], Check(), []),
+    'MyCoalesceError': lambda: MyCoalesceError(Coalesce('a'), [], None),
+    'MyUnregisteredTarget': lambda: MyUnregisteredTarget('get', int, {}, None),
+    'MyFoldError': lambda: MyFoldError('f'),
     'Falsy': lambda: Falsy('f'),
     'FalsyBool': lambda: FalsyBool('f'),
     'GFalsy': lambda: GFalsy('gf'),
@@ -230,7 +266,8 @@ QUICK_SHAPES = ['ValueError', 'KeyError', 'KeyError-noargs', 'OSError-2', 'Unico
                 'NonRebuildable', 'KwOnly', 'ArityChange', 'MsgPrefix', 'Slotted', 'GPlain', 'GTwoArg', 'GNonRebuildable', 'GKwOnly',
                 'GArityChange', 'GMsgPrefix', 'GMultiple', 'glom-PathAccessError', 'glom-MatchError', 'glom-TypeMatchError',
                 'glom-UnregisteredTarget', 'glom-CheckError', 'glom-CoalesceError', 'KeyboardInterrupt', 'SystemExit', 'MyBase',
-                'Falsy', 'FalsyBool', 'GFalsy', 'ReadOnlyArgs', 'Guarded', 'GGuarded', 'NoSubclass']
+                'Falsy', 'FalsyBool', 'GFalsy', 'ReadOnlyArgs', 'Guarded', 'GGuarded', 'NoSubclass',
+                'MyPathAccessError', 'MyMatchError', 'MyTypeMatchError', 'MyCheckError', 'MyCoalesceError', 'MyUnregisteredTarget', 'MyFoldError']
 
 
 # ---------------------------------------------------------------------------
